@@ -152,7 +152,7 @@ def observables(proc: Any) -> Dict[str, Any]:
     }
     if hasattr(proc, 'ctx'):
         obs['ctx'] = canon(dict(proc.ctx.__dict__))
-    if '_trace' in (type(proc)._auto_persist or ()):
+    if hasattr(type(proc), 'PROGRAM'):  # the generated programs declare their step trace as a persisted member
         obs['trace'] = list(proc._trace)
     if proc.has_terminated():
         state = proc.state
